@@ -43,6 +43,23 @@ Definition is_witness_program (s : bytes) : bool :=
   | _ => false
   end.
 
+(** rust-bitcoin 0.32 Script::is_p2sh: OP_HASH160 <20 bytes> OP_EQUAL, exactly 23 bytes *)
+Definition is_p2sh (s : bytes) : bool :=
+  (lenN s =? 23) &&
+  match nth_error s 0, nth_error s 1, nth_error s 22 with
+  | Some a, Some b, Some c => (a =? 169) && (b =? 20) && (c =? 135)
+  | _, _, _ => false
+  end.
+
+(** A claimed previous output WITHOUT the previous transaction ("bare claim") is only taken
+    when spending it commits to the amount: witness programs and p2sh (wrapped segwit).  A
+    bare claim about a legacy output is refused (/repo 6e3d302). *)
+Definition bare_claim_ok (i : pinput) : bool :=
+  match i_nwu i, i_wu i with
+  | None, Some w => is_witness_program (o_spk w) || is_p2sh (o_spk w)
+  | _, _ => true
+  end.
+
 (** [output.get(vout)] with a binary index (vout is any u32) *)
 Fixpoint nth_N {A} (l : list A) (n : N) : option A :=
   match l with
@@ -53,7 +70,7 @@ Fixpoint nth_N {A} (l : list A) (n : N) : option A :=
 (** one input of StreamedPSBT::consensus_decode_from_finite_reader *)
 Definition post_input (t : txin) (i : pinput) : option (pinput * bool) :=
   match i_nwu i with
-  | None => Some (i, false)
+  | None => if bare_claim_ok i then Some (i, false) else None
   | Some ptx =>
       if negb (bytes_eqb (pt_txid ptx) (ti_txid t)) then None
       else match nth_N (pt_outs ptx) (ti_vout t) with
@@ -114,10 +131,11 @@ Fixpoint map2 {A B C} (f : A -> B -> C) (la : list A) (lb : list B) : list C :=
 
 (** a PSBT the streamed decoder accepts: unsigned tx really unsigned, every supplied
     previous transaction is the one the input spends, has that output, and agrees with a
-    supplied witness_utxo *)
+    supplied witness_utxo; a witness_utxo supplied without the previous transaction is about
+    a witness-program or p2sh output *)
 Definition input_consistent (t : txin) (i : pinput) : bool :=
   match i_nwu i with
-  | None => true
+  | None => bare_claim_ok i
   | Some ptx =>
       bytes_eqb (pt_txid ptx) (ti_txid t) &&
       match nth_N (pt_outs ptx) (ti_vout t) with
